@@ -26,7 +26,7 @@ EXPLANATION = ('For every physical operator that has both try_to_proto and try_f
 ASSUMPTIONS = ['a protobuf enum value travels as the i32 of the same variant (prost)']
 
 
-def is_conv(name):
+def is_conv_std(name):
     return ' as core::convert::From<' in name or ' as core::convert::TryFrom<' in name or ' as core::convert::Into<' in name or \
         name.endswith(('::from_i32', '::as_str_name', '::from_str_name'))
 
@@ -67,6 +67,17 @@ def inline_maps(ctx, facts, cand, rule='inline-enum-roundtrip'):
         return None, 'decoder has no local of the wire enum type (conversion happens in a helper)'
     ctx.analysed_fns.add(enc)
     ctx.analysed_fns.add(dec)
+    # the enum mapping may sit in a private helper next to the operator (`fn explain_format_to_proto(f: &ExplainFormat) -> i32`):
+    # module-local functions whose signature mentions the domain or the wire enum are explored inline like the std conversions
+    module = owner.rsplit('::', 1)[0] + '::'
+
+    def is_conv(name, _std=is_conv_std):
+        if _std(name):
+            return True
+        if not name.startswith(module) or name not in facts.fn_index:
+            return False
+        sig = facts.fn_index[name][0][8] if len(facts.fn_index[name][0]) > 8 else ()
+        return any(D in t or any(P in t for P in Ps) for t in sig)
     # encoder: D -> set of P variants observed
     encmap = {}
     for v in enum_domain(facts, D):
